@@ -29,8 +29,14 @@ INVALID = {
     "payloadstr": None,    # ... (a string)
     "null": b"null",
     "num": b"12",
+    "zero": b"0", "false": b"false", "emptystr": b'""', "blank": b" \n",          # audit A8: falsy documents
 }
-WRONG_SHAPE = ("obj", "arr", "hdronly", "payloadlist", "payloadstr", "null", "num")
+WRONG_SHAPE = ("obj", "arr", "hdronly", "payloadlist", "payloadstr", "null", "num", "zero", "false", "emptystr")
+# audit A1/A2/A5/C2: the compose directory NAME - blanks, delimiters, non-ASCII, long, the literals of the resolver themselves
+TOP_NAMES = ["P", "my compose", "P\u00e9-\u0663", "P-1.0", "compose", "metadata", "a:b=c", "n" * 100, "None", " lead"]
+SPELLINGS = ["plain", "dslash", "dot", "dotdot", "inner-dslash"]            # audit A3: P//  P/.  P/../P  root//P (model skipped: oracle only)
+NEAR_MISS_DIRS = ["compose2", "compos", "Compose-", "metadata.bak", "metadat"]            # audit A7/C2: extensions and proper prefixes of the literals
+NEAR_MISS_FILES = ["images-manifest.json", "composeinfo.json.bak", "Images.json", "rpm-manifest.json~", "image-manifest.jso", "modules.json.old"]
 HEADER_TYPE = {"info": "productmd.composeinfo", "images": "productmd.images", "rpms": "productmd.rpms", "modules": "productmd.modules"}
 
 
@@ -112,18 +118,56 @@ def json_type(v):
     return "null" if v is None else "bool" if isinstance(v, bool) else "num" if isinstance(v, (int, float)) else "str" if isinstance(v, str) else "list" if isinstance(v, list) else "dict"
 
 
-def build_tree(root, layouts, seed):
-    """layouts: {dir relative to P ('' = direct): {file name: content kind}}; plus noise directories"""
-    P = os.path.join(root, "P")
+def build_tree(root, layouts, seed, top="P", links=None, noise="plain", special=None):
+    """layouts: {dir relative to the compose dir ('' = direct): {file name: content kind}}; plus noise directories.
+    links: 'metadata-dir' (every metadata directory is a symlink to a directory elsewhere) / 'files' (every metadata file is a symlink);
+    noise 'near': files and directories whose names are extensions / proper prefixes / case variants of the resolver's literals;
+    special: 'file' (the compose path is a regular file) / 'missing' / 'empty'"""
+    P = os.path.join(root, top)
+    if special == "missing":
+        return
+    if special == "file":
+        os.makedirs(os.path.dirname(P), exist_ok=True)
+        with open(P, "w") as f:
+            f.write("not a directory\n")
+        return
     os.makedirs(P)
+    if special == "empty":
+        return
+    n = 0
     for sub, files in sorted(layouts.items()):
         md = os.path.join(P, sub, "metadata") if sub else os.path.join(P, "metadata")
-        os.makedirs(md)
+        if links == "metadata-dir":
+            n += 1
+            real_md = os.path.join(root, "elsewhere", "md%d" % n)
+            os.makedirs(real_md)
+            os.makedirs(os.path.dirname(md), exist_ok=True)
+            os.symlink(real_md, md)
+        else:
+            os.makedirs(md)
         for name, what in sorted(files.items()):
-            with open(os.path.join(md, name), "wb") as f:
-                f.write(content_bytes(KIND_OF_FILE[name], what, "%s/%s/%s" % (seed, sub, name)))
-    for noise in ("logs", "work"):
-        os.makedirs(os.path.join(P, noise), exist_ok=True)
+            data = content_bytes(KIND_OF_FILE[name], what, "%s/%s/%s" % (seed, sub, name))
+            target = os.path.join(md, name)
+            if links == "files":
+                n += 1
+                real_f = os.path.join(root, "elsewhere", "f%d" % n)
+                os.makedirs(os.path.dirname(real_f), exist_ok=True)
+                with open(real_f, "wb") as f:
+                    f.write(data)
+                os.symlink(real_f, target)
+            else:
+                with open(target, "wb") as f:
+                    f.write(data)
+        if noise == "near":
+            for nm in NEAR_MISS_FILES:
+                with open(os.path.join(md, nm), "wb") as f:
+                    f.write(content_bytes("images", "valid", "noise"))
+    for d in ("logs", "work") + (tuple(NEAR_MISS_DIRS) if noise == "near" else ()):
+        os.makedirs(os.path.join(P, d), exist_ok=True)
+    if noise == "near":
+        os.makedirs(os.path.join(P, "compos", "metadat"), exist_ok=True)
+        with open(os.path.join(P, "metadata.bak", "composeinfo.json"), "wb") as f:
+            f.write(b"{}")
     with open(os.path.join(P, "STATUS"), "w") as f:
         f.write("FINISHED\n")
 
@@ -231,6 +275,36 @@ class C20(Prop):
             for _ in range(2):
                 seq.insert(rng.randrange(1, len(seq)), "rm:" + rng.choice(KINDS))
             yield {"op": "tree", "args": {"layouts": {rng.choice(["", "compose", "1.0"]): files}, "slash": rng.random() < 0.5, "seed": 31000 + i, "accesses": seq}}
+        # F. generator audit: directory names, path spellings, symlinked metadata, near-miss names, special compose paths, repair
+        i = 0
+        for top in TOP_NAMES:
+            for sub in ("", "compose", "1.0"):
+                i += 1
+                files = dict(rng.choice(combos))
+                if sub == "compose":
+                    files["composeinfo.json"] = "valid"
+                yield {"op": "tree", "args": {"layouts": {sub: files}, "slash": i % 2 == 0, "seed": 50000 + i, "accesses": self.accesses(rng), "top": top,
+                                              "noise": "near" if i % 2 else "plain", "links": [None, "metadata-dir", "files"][i % 3]}}
+        for sp in SPELLINGS[1:]:
+            for sub in ("", "compose", "1.0"):
+                for slash in (False, True):
+                    i += 1
+                    files = {"composeinfo.json": "valid", "images.json": "valid", "rpm-manifest.json": "valid"}
+                    yield {"op": "tree", "args": {"layouts": {sub: files}, "slash": slash, "seed": 50000 + i, "accesses": self.accesses(rng), "spelling": sp,
+                                                  "top": rng.choice(TOP_NAMES[:4])}}
+        for special in ("missing", "empty", "file"):
+            for slash in (False, True):
+                i += 1
+                yield {"op": "tree", "args": {"layouts": {}, "slash": slash, "seed": 50000 + i, "accesses": ["info", "images"], "special": special}}
+        for subs in (["Compose", "compose"], ["COMPOSE"], ["Compose"], ["compose", "Metadata"]):          # audit A4: names that differ only in case
+            i += 1
+            layouts = dict((sub, {"composeinfo.json": "valid", "images.json": "valid"}) for sub in subs)
+            yield {"op": "tree", "args": {"layouts": layouts, "slash": False, "seed": 50000 + i, "accesses": ["info", "images", "info"], "noise": "near"}}
+        for k in KINDS:                                # failed access -> the file appears -> success, then cached
+            for sub in ("", "1.0"):
+                i += 1
+                others = dict((FILES[x][0], "valid") for x in KINDS if x != k)
+                yield {"op": "tree", "args": {"layouts": {sub: others}, "slash": i % 2 == 0, "seed": 50000 + i, "accesses": [k, "mk:" + k, k, k, "rm:" + k, k]}}
         # E. well-formed JSON of the right OUTER shape with ONE inner value of the wrong type (null / number / string / list / dict):
         #    systematic walk over a valid document of each file (and of a pre-0.3 rpm manifest); the loaders then fail in a subscript
         #    (KeyError/TypeError), a method call on the foreign value (AttributeError: .keys/.get/.items/.lower) or a validator
@@ -284,11 +358,12 @@ class C20(Prop):
             root, top = os.path.join(REPO, a["root"]), a["path"]
         else:
             tmp = tempfile.mkdtemp(prefix="c20-")
-            root, top = tmp, "P"
-            build_tree(root, a["layouts"], a["seed"])
+            root, top = tmp, a.get("top", "P")
+            build_tree(root, a["layouts"], a["seed"], top, a.get("links"), a.get("noise", "plain"), a.get("special"))
         try:
-            nodes, orders = walk(root, top)
-            given = top + ("/" if a["slash"] else "")
+            nodes, orders = walk(root, top) if os.path.lexists(os.path.join(root, top)) else ([], [])
+            sp = a.get("spelling", "plain")
+            given = {"plain": top, "dslash": top + "/", "dot": top + "/.", "dotdot": top + "/../" + top, "inner-dslash": "/" + top}[sp] + ("/" if a["slash"] else "")
             log = []
             orig_load = C.MetadataBase.load
 
@@ -296,7 +371,7 @@ class C20(Prop):
                 log.append([type(self).__name__, f])
                 return orig_load(self, f)
             rel = lambda p: os.path.relpath(p, root) + ("/" if p.endswith("/") else "") if isinstance(p, str) and p.startswith(root) else p
-            out = {"nodes": nodes, "orders": orders, "given": given}
+            out = {"nodes": nodes, "orders": orders, "given": given, "top": top}
             # outcome of loading every candidate file directly (input of the model, and the oracle's reference) - taken
             # BEFORE the accesses, which may delete files
             direct = []
@@ -313,7 +388,7 @@ class C20(Prop):
             C.MetadataBase.load = logged
             try:
                 try:
-                    comp = productmd.compose.Compose(os.path.join(root, given))
+                    comp = productmd.compose.Compose(root + "/" + given)
                     out["compose_path"] = {"ok": rel(comp.compose_path)}
                 except Exception as e:
                     out["compose_path"] = {"err": errname(e)}
@@ -321,6 +396,18 @@ class C20(Prop):
                 results, objs = [], []
                 if comp is not None:
                     for k in a["accesses"]:
+                        if k.startswith("mk:"):               # audit B2: failed call -> repair -> success (a failure is not cached)
+                            fp = os.path.join(comp.compose_path, "metadata", FILES[k[3:]][0])
+                            created = None
+                            if tmp and os.path.isdir(os.path.dirname(fp)) and not os.path.lexists(fp):
+                                with open(fp, "wb") as f:
+                                    f.write(content_bytes(k[3:], "valid", "mk-%s" % a["seed"]))
+                                o2 = cls_of(k[3:])()
+                                o2.load(fp)
+                                created = rel(fp)
+                                direct.append([k[3:], os.path.normpath(created), {"ok": o2.dumps()}])
+                            results.append({"mk": True, "created": created})
+                            continue
                         if k.startswith("rm:"):
                             removed = []
                             if tmp:                                   # never in a fixture
@@ -367,6 +454,9 @@ class C20(Prop):
 
     # ------------------------------------------------------------------ model side
     def model_requests(self, case):
+        a0 = case["args"]
+        if a0.get("spelling", "plain") != "plain" or any(k.startswith("mk:") for k in a0["accesses"]):
+            return []                                # path spellings the tree model does not normalise ('..', '.') / a growing file system: oracle only
         r = self._last
         return [{"op": "cd_run", "args": {"nodes": r["nodes"], "orders": r["orders"], "loads": r["direct"], "compose_path": r["given"],
                                           "accesses": case["args"]["accesses"]}}]
@@ -384,7 +474,7 @@ class C20(Prop):
             for x in r["results"]:
                 if "ok" in x:
                     rres.append({"ok": x["ok"]["text"]}); rid.append(x["ok"]["ident"])
-                elif "rm" in x:
+                elif "rm" in x or "mk" in x:
                     rres.append({"rm": True}); rid.append(None)
                 else:
                     rres.append(x); rid.append(None)
@@ -408,10 +498,11 @@ class C20(Prop):
         else:
             layouts = a["layouts"]
         nodes = dict((p, d) for p, d in r["nodes"])
-        top = r["given"].rstrip("/")
+        top = r.get("top") or r["given"].rstrip("/")
         if "err" in r["compose_path"]:
-            return {"observed": r["compose_path"], "required": "Compose(path) resolves a directory", "kind": "constructor-raised"}
-        resolved = r["compose_path"]["ok"].rstrip("/")
+            return {"observed": dict(r["compose_path"], special=a.get("special")), "required": "Compose(path) resolves; a missing compose surfaces as RuntimeError naming the location on access",
+                    "kind": "constructor-raised"}
+        resolved = os.path.normpath(r["compose_path"]["ok"])
         # 1. layout
         has_meta = lambda d: nodes.get(d + "/metadata") is True
         subdirs = sorted(p for p, d in nodes.items() if d and os.path.dirname(p) == top and has_meta(p))
@@ -433,6 +524,12 @@ class C20(Prop):
             if k.startswith("rm:"):
                 gone.update(resolved + "/metadata/" + n for n in FILES[k[3:]])
                 continue
+            if k.startswith("mk:"):
+                if res.get("created"):
+                    nodes[os.path.normpath(res["created"])] = False
+                    gone.discard(os.path.normpath(res["created"]))
+                    direct[(k[3:], os.path.normpath(res["created"]))] = dict(((kk, pp), oo) for kk, pp, oo in r["direct"]).get((k[3:], os.path.normpath(res["created"])))
+                continue
             if k in first_ok:
                 # already loaded successfully: the SAME object, whatever has happened to the file since
                 if "ok" not in res or res["ok"]["ident"] != first_ok[k] or res["ok"]["loaded_now"]:
@@ -445,7 +542,7 @@ class C20(Prop):
                 want = {"err": "RuntimeError", "named": resolved}
                 got = dict(res)
                 if got.get("named"):
-                    got["named"] = got["named"].rstrip("/")
+                    got["named"] = os.path.normpath(got["named"])
                 if got != want:
                     return {"observed": {"access": k, "result": res}, "required": want, "kind": "missing-not-runtime-error"}
                 continue
@@ -465,7 +562,7 @@ class C20(Prop):
                     return {"observed": {"access": k, "loads": loads_per_kind[k]}, "required": "loaded once", "kind": "loaded-again"}
             else:
                 want = {"err": "RuntimeError", "named": f}
-                if res != want:
+                if dict(res, named=os.path.normpath(res["named"])) != want if res.get("named") else res != want:
                     shape = None
                     if layouts is not None:
                         sub = os.path.relpath(resolved, top) if resolved != top else ""
@@ -483,7 +580,7 @@ class C20(Prop):
             k = "layouts:" + "+".join(sorted(x or "direct" for x in case["args"]["layouts"])) if case["args"]["layouts"] else "layouts:none"
             dist[k] = dist.get(k, 0) + 1
         for res in r.get("results", []):
-            k = "access ok" if "ok" in res else "file deleted between accesses" if "rm" in res else "access err:" + res["err"]
+            k = "access ok" if "ok" in res else "file deleted between accesses" if "rm" in res else "file created between accesses" if "mk" in res else "access err:" + res["err"]
             dist[k] = dist.get(k, 0) + 1
 
     def shrink_candidates(self, case):
